@@ -110,6 +110,19 @@ CLAIMED = {
         note="Lean kernel; standard axioms; hand model tied by correspondence; codecs/webencodings not modelled.",
         technique="Lean 4 proof (closed form of the filter) + differential correspondence + byte round-trip search",
         design="6/C15"),
+    "C08": dict(
+        category="proof",
+        text="Hand model of HTMLSerializer.serialize in Lean (quoting classes, void/raw-text/boolean tables extracted each "
+             "run), tied by op ser over random option combinations on walked parses. Proved: the escaping lemmas "
+             "(escaped text contains no '<'/'>', quoted values never contain their quote character, a value is written "
+             "unquoted only if no character of the extracted class occurs in it; both classes contain every character that "
+             "would end or corrupt an unquoted value; '--' in comments and '</' in raw text are reported). The lexical "
+             "faithfulness clause itself is decided by search: the real output is re-tokenised by the independent WHATWG "
+             "tokenizer spec driven by the known element context and compared with the tokens given; failing streams are "
+             "shrunk and classified (partial: the re-tokenisation theorem is not proved).",
+        note="Lean kernel; standard axioms; H5.Spec.Tokenizer written from the standard from memory; lexical.py plan.",
+        technique="Lean 4 model + escaping lemmas; differential correspondence; retokenisation oracle with shrinking",
+        design="6/C08"),
 }
 
 PENDING_REASON = "check under construction in this round: model/theorems not yet committed (see DESIGN section 8); not claimed"
